@@ -312,6 +312,61 @@ func c13One(env *Env, m *wvlib.Model, c *C13Case) {
 			verifyResume(ck, popIdx)
 		}
 	}
+	// (d) the SAME reader is rewound with Resume while a save is in flight (requested, delivered by the source, not
+	// popped): the stale source checkpoint must not be paired with the rewound offset
+	if len(msgs) >= 4 {
+		rc, err := c13Open(stream)
+		if err == nil {
+			var early *wire.MessageReaderCheckpoint
+			e := -1
+			i := 0
+			for ; i < len(msgs) && early == nil; i++ {
+				rc.WantSave()
+				if rc.ReadMessage(&pwr.SyncOp{}) != nil {
+					break
+				}
+				if early = rc.PopCheckpoint(); early != nil {
+					e = i + 1
+				}
+			}
+			if early != nil && e+2 <= len(msgs) {
+				// a second save is requested and left unpopped while more messages are read
+				rc.WantSave()
+				for k := 0; k < 2 && i < len(msgs); k, i = k+1, i+1 {
+					rc.ReadMessage(&pwr.SyncOp{})
+				}
+				var gb bytes.Buffer
+				gob.NewEncoder(&gb).Encode(early)
+				back := &wire.MessageReaderCheckpoint{}
+				gob.NewDecoder(&gb).Decode(back)
+				if err := rc.Resume(back); err != nil {
+					env.R.Violate("rewind-fails:"+c.Comp.Algo, fmt.Sprintf("Resume on the same reader to the checkpoint after message %d: %v", e, err), c)
+				} else {
+					got := &pwr.SyncOp{}
+					if err := rc.ReadMessage(got); err != nil || !sameMsg(got, msgs[e]) {
+						env.R.Violate("rewind-not-exact:"+c.Comp.Algo, fmt.Sprintf("after rewinding to message %d: %v", e, err), c)
+					} else {
+						if ck := rc.PopCheckpoint(); ck != nil {
+							// whatever is popped now must be a checkpoint for THIS position
+							verifyResume(ck, e+1)
+						}
+						// and the save protocol still works after the rewind
+						for j := e + 1; j < len(msgs); j++ {
+							rc.WantSave()
+							if rc.ReadMessage(&pwr.SyncOp{}) != nil {
+								break
+							}
+							if ck := rc.PopCheckpoint(); ck != nil {
+								verifyResume(ck, j+1)
+								break
+							}
+						}
+						env.R.Count("same-reader-rewinds", 1)
+					}
+				}
+			}
+		}
+	}
 	// the uncompressed inner stream parses to the same bodies in the model
 	if c.Comp.Algo == "none" && len(stream) < 3_000_000 {
 		// skip magic + header frame
@@ -337,7 +392,7 @@ func c13One(env *Env, m *wvlib.Model, c *C13Case) {
 
 func runC13(env *Env) {
 	R := env.R
-	R.Rule = "message sequences (sizes 0 .. > 4 MiB, messages with an empty encoding incl. as the last one, encoded lengths on both sides of every uvarint prefix step (127/128, 16383/16384, 2097151/2097152), lengths straddling 32 KiB and the power-of-two growth steps, large then small) x {none, gzip -2..9, brotli 0..9}; a save is requested at every message boundary - and, separately, once with the checkpoint popped several messages (up to > 16 MiB) later -, every popped checkpoint is gob-serialised and resumed in a new reader over the same bytes; distinct by (seed, compression); non-trivial = at least one checkpoint was popped and resumed"
+	R.Rule = "message sequences (sizes 0 .. > 4 MiB, messages with an empty encoding incl. as the last one, encoded lengths on both sides of every uvarint prefix step (127/128, 16383/16384, 2097151/2097152), lengths straddling 32 KiB and the power-of-two growth steps, large then small) x {none, gzip -2..9, brotli 0..9}; a save is requested at every message boundary - and, separately, once with the checkpoint popped several messages (up to > 16 MiB) later -, every popped checkpoint is gob-serialised and resumed in a new reader; the same reader is also rewound with Resume while a save is in flight over the same bytes; distinct by (seed, compression); non-trivial = at least one checkpoint was popped and resumed"
 	if env.Replay != "" {
 		var c C13Case
 		replayCase(env, &c)
